@@ -14,6 +14,7 @@ let dispatch kind args =
   | "callbind" -> C14.run kind args
   | "unpack" | "shiftlines" -> C16.run kind args
   | "jsonvalid" | "jsonstr" -> C17.run kind args
+  | "calls19" | "size19" -> C19.run kind args
   | _ -> failwith ("unknown kind " ^ kind)
 
 let () =
